@@ -442,6 +442,46 @@ def r9_shared_sites(idx, r):
     bounding_lines_rule(idx, r)
 
 
+def r11_cartesian_cut_and_cached_positions(idx, r):
+    """(a) CartesianBlock.getSymmetryFactor is EVALUATED (MiniEval) on the cells (i, j) in {-1, 0, 1, 2}^2 of a through-centre quarter core:
+    4 for the centre cell, 2 for a cell on EITHER axis, 1 elsewhere - and 1 everywhere when the symmetry lines run between cells.  A cell on
+    the i-axis and its image on the j-axis are cut alike.  (b) HexBlock.rotate moves the locators of the children without clearing the
+    block's cache: a Block method that caches anything computed from locators or coordinates keeps answering with the pre-rotation
+    positions."""
+    from ..minieval import MiniEval
+    f = idx.method("armi.reactor.blocks.CartesianBlock", "getSymmetryFactor")
+    bad = []
+    for through in (True, False):
+        for i in (-1, 0, 1, 2):
+            for j in (-1, 0, 1, 2):
+                def hook(call, args, i=i, j=j):
+                    if call_attr(call) == "getCompleteIndices":
+                        return (i, j, 0)
+                    return None
+                got, _ = MiniEval(call_hook=hook).run(f.node, {"self.core": 1, "self.core.symmetry.isThroughCenterAssembly": through})
+                want = 1.0 if not through else (4.0 if (i, j) == (0, 0) else (2.0 if 0 in (i, j) else 1.0))
+                if got != want:
+                    bad.append(((i, j), through, got, want))
+    r.require(not bad, "CartesianBlock.getSymmetryFactor:axes-cut-alike", f,
+              msg=f"((i, j), through-centre, factor, expected) = {bad[:3]}: cells on one of the two symmetry axes are not halved, so a cell and its image on the other axis are classified differently")
+    blk = idx.cls("armi.reactor.blocks.Block")
+    rot = idx.method("armi.reactor.blocks.HexBlock", "rotate")
+    clears = any(call_attr(c) == "clearCache" for c in iter_calls(rot.node))
+    POS = {"getPinLocations", "getLocalCoordinates", "getGlobalCoordinates", "getCompleteIndices", "getPinCoordinates", "getLocations"}
+    n = 0
+    for c in [blk] + idx.subclasses(blk):
+        for m_ in c.methods.values():
+            sets = [x for x in iter_calls(m_.node) if dotted(x.func) == "self._setCache"]
+            if not sets:
+                continue
+            n += 1
+            pos = any(call_attr(x) in POS for x in iter_calls(m_.node)) or any(isinstance(x, ast.Attribute) and x.attr == "spatialLocator" for x in walk_local(m_.node))
+            r.require(clears or not pos, f"{c.name}.{m_.name}:no-cached-positions", m_, node=sets[0],
+                      msg=f"{c.name}.{m_.name} caches a value computed from locators/coordinates, and HexBlock.rotate does not clear the cache: after a rotation the block reports the positions from before it")
+    if n < 1:
+        raise AnchorMissing("cache-filling methods of Block")
+
+
 def r10_pairing(idx, r):
     from ..pairing import pairing_rule
     pairing_rule(idx, r, ["armi.reactor.grids", "armi.reactor.blocks", "armi.reactor.assemblies", "armi.utils.hexagon", "armi.utils.iterables"], 100)
@@ -472,3 +512,5 @@ def run(idx, chk):
                  necessary="rotating a block turns every corner/edge vector; a re-created grid reports the same symmetric images; a cell and its images are classified alike")
     chk.run_rule("R08.10", "arguments stand at the parameter they are named after; sibling calls forward the same pass-through parameters", lambda r: r10_pairing(idx, r), floor=1,
                  necessary="indices and rotation counts reach the parameter they are meant for")
+    chk.run_rule("R08.11", "Cartesian blocks on either symmetry axis are halved (evaluated on 32 cells); nothing position-derived is cached across a rotation", lambda r: r11_cartesian_cut_and_cached_positions(idx, r), floor=2,
+                 necessary="a cell and its symmetric images are classified alike; after rotate() pins are reported at the rotated positions")
